@@ -245,6 +245,14 @@ func (g *Gen) havocElems(h Heap, so Sort, arr string) Heap {
 func (g *Gen) applyContract(b *ssa.BasicBlock, fc *FuncContract, names []string, args []Val, res *types.Tuple, sigFn *ssa.Function,
 	h Heap, guard string, pos token.Pos, calleeName string, callee *ssa.Function) (Val, Heap) {
 	env := &Env{g: g, vars: map[string]Val{}, heap: h, old: h, noLocals: true}
+	if fc.Kind == "functype" {
+		env.noLocals = false
+		env.block = b
+		env.atEnd = true
+		if g.Fn.Pkg != nil {
+			env.pkg = g.Fn.Pkg.Pkg
+		}
+	}
 	if callee != nil && callee.Pkg != nil {
 		env.pkg = callee.Pkg.Pkg
 	} else if fc.Pkg != "" {
@@ -299,7 +307,7 @@ func (g *Gen) applyContract(b *ssa.BasicBlock, fc *FuncContract, names []string,
 	}
 	r := resultVal(g, res, "ret:"+calleeName)
 	g.assumeAllocated(h2, r)
-	env2 := &Env{g: g, vars: env.vars, heap: h2, old: h, noLocals: true, pkg: env.pkg}
+	env2 := &Env{g: g, vars: env.vars, heap: h2, old: h, noLocals: env.noLocals, pkg: env.pkg, block: env.block, atEnd: env.atEnd}
 	g.bindResults(env2, r, res)
 	for _, c := range fc.Ensures {
 		g.assumeClause(env2, c, guard)
@@ -386,7 +394,7 @@ func (g *Gen) havocDesignator(env *Env, item string, h Heap) (Heap, error) {
 	if err != nil {
 		return h, err
 	}
-	cur := &Env{g: g, vars: env.vars, heap: h, old: env.old, noLocals: env.noLocals, pkg: env.pkg, block: env.block}
+	cur := &Env{g: g, vars: env.vars, heap: h, old: env.old, noLocals: env.noLocals, pkg: env.pkg, block: env.block, atEnd: env.atEnd}
 	switch x := e.(type) {
 	case *ESel:
 		// Type.field : every object ; expr.field : one object
@@ -450,6 +458,26 @@ func (g *Gen) havocDesignator(env *Env, item string, h Heap) (Heap, error) {
 				}
 			}
 			return g.havocElems(h, g.sortOf(et), sx("s-arr", v.T)), nil
+		}
+		if x.Fun == "map" && len(x.Args) == 1 {
+			v, err := cur.eval(x.Args[0])
+			if err != nil {
+				return h, err
+			}
+			mt, ok := v.Ty.Underlying().(*types.Map)
+			if !ok {
+				return h, fmt.Errorf("map() of non-map")
+			}
+			ks, vs := g.sortOf(mt.Key()), g.sortOf(mt.Elem())
+			md, mv := g.mapDomComp(ks, vs), g.mapValComp(ks, vs)
+			d := g.S.freshName("assigned:mapdom")
+			g.S.declare(d, arrSort(string(ks), "Bool"))
+			vv := g.S.freshName("assigned:mapval")
+			g.S.declare(vv, arrSort(string(ks), string(vs)))
+			h = h.clone()
+			h[md] = store(g.hget(h, md), v.T, d)
+			h[mv] = store(g.hget(h, mv), v.T, vv)
+			return h, nil
 		}
 	case *EIndex:
 		if id, ok := x.X.(*EIdent); ok {
@@ -694,7 +722,6 @@ func (g *Gen) ret(b *ssa.BasicBlock, x *ssa.Return, h Heap, guard string) {
 	}
 	env := g.newEnv(h, g.entryHeap, b)
 	env.atEnd = true
-	env.noLocals = true
 	g.bindResults(env, r, res)
 	post := func(fc *FuncContract, label string) {
 		for _, c := range fc.Ensures {
@@ -712,9 +739,9 @@ func (g *Gen) ret(b *ssa.BasicBlock, x *ssa.Return, h Heap, guard string) {
 	}
 	if g.FC != nil {
 		post(g.FC, "")
-		if g.FC.HasAssign {
-			g.frameCheck(env, h, guard, x.Pos())
-		}
+	}
+	if (g.FC != nil && g.FC.HasAssign) || (g.FT != nil && g.FT.HasAssign && (g.FC == nil || !g.FC.HasAssign || true)) {
+		g.frameCheck(env, h, guard, x.Pos())
 	}
 	g.checkStructInvs(h, guard, x.Pos(), "return")
 }
@@ -737,20 +764,32 @@ func (g *Gen) frameCheck(env *Env, h Heap, guard string, pos token.Pos) {
 	// then every other difference must be confined to fresh objects.
 	allowed := map[string][]string{} // comp -> list of refs (terms) that may change ; nil list with key present = whole comp
 	whole := map[string]bool{}
-	for _, a := range g.FC.Assigns {
-		e0 := &Env{g: g, vars: env.vars, heap: g.entryHeap, old: g.entryHeap, noLocals: true, pkg: env.pkg}
-		comp, ref, err := g.designatorTarget(e0, a)
+	var assigns []string
+	if g.FC != nil && g.FC.HasAssign {
+		assigns = append(assigns, g.FC.Assigns...)
+	}
+	if g.FT != nil && g.FT.HasAssign {
+		assigns = append(assigns, g.FT.Assigns...)
+	}
+	for _, a := range assigns {
+		e0 := g.newEnv(g.entryHeap, g.entryHeap, g.Fn.Blocks[0])
+		for k, v := range env.vars {
+			e0.vars[k] = v
+		}
+		comps, ref, err := g.designatorTargets(e0, a)
 		if err != nil {
 			g.unsupported("%s: assigns %q: %v", g.FnName(), a, err)
 			return
 		}
-		if comp == "*" {
-			return
-		}
-		if ref == "" {
-			whole[comp] = true
-		} else {
-			allowed[comp] = append(allowed[comp], ref)
+		for _, comp := range comps {
+			if comp == "*" {
+				return
+			}
+			if ref == "" {
+				whole[comp] = true
+			} else {
+				allowed[comp] = append(allowed[comp], ref)
+			}
 		}
 	}
 	var cs []string
@@ -778,11 +817,31 @@ func (g *Gen) frameCheck(env *Env, h Heap, guard string, pos token.Pos) {
 		} else {
 			goal = eq(cur, init)
 		}
-		g.oblige("frame", c, "assigns "+strings.Join(g.FC.Assigns, ", "), guard, goal, pos)
+		g.oblige("frame", c, "assigns "+strings.Join(assigns, ", "), guard, goal, pos)
 	}
 }
 
 // designatorTarget resolves an assigns item to (component, ref-term or "" for the whole component).
+func (g *Gen) designatorTargets(env *Env, item string) ([]string, string, error) {
+	item = strings.TrimSpace(item)
+	if e, err := ParseExpr(item); err == nil {
+		if c, ok := e.(*ECall); ok && c.Fun == "map" && len(c.Args) == 1 {
+			v, err := env.eval(c.Args[0])
+			if err != nil {
+				return nil, "", err
+			}
+			mt, ok := v.Ty.Underlying().(*types.Map)
+			if !ok {
+				return nil, "", fmt.Errorf("map() of non-map")
+			}
+			ks, vs := g.sortOf(mt.Key()), g.sortOf(mt.Elem())
+			return []string{g.mapDomComp(ks, vs), g.mapValComp(ks, vs)}, v.T, nil
+		}
+	}
+	c, r, err := g.designatorTarget(env, item)
+	return []string{c}, r, err
+}
+
 func (g *Gen) designatorTarget(env *Env, item string) (string, string, error) {
 	item = strings.TrimSpace(item)
 	switch item {
